@@ -13,4 +13,12 @@ def run():
                       "bytes/timestamp/container comparisons: see DESIGN.md §5 C10 (separate harnesses, bounded)"]
     t = 240 if tier() == "quick" else 1800
     viol, inconc, known = K.check_property("C10", ev, ["c10_"], timeout_s=t, jobs=8)
-    return ev, viol, inconc, known
+    # engine S half: operator dispatch for bytes / timestamps, and a cross-check of the numeric cases
+    import sys, os
+    sys.path.insert(0, os.path.join(os.path.dirname(os.path.dirname(os.path.abspath(__file__))), "mirse"))
+    import kernelcheck, cmplemmas
+    k_fns = list(ev.cov["functions_encoded"])
+    v2, i2, k2 = kernelcheck.check("C10", ev, cmplemmas.obligations, cmplemmas.replayer, cvc5_cross=(tier() == "thorough"))
+    ev.cov["functions_encoded"] = k_fns + list(ev.cov["functions_encoded"])
+    ev.cov["bounds"].append("engine S: try_gt/ge/lt/le and eq_lossy on every operand-variant pair: bytes/timestamp comparisons apply the matching std operator to the two payloads in order (the comparison itself is bytes/chrono code), bytes|timestamp vs another kind is an error, non-numeric == is Value's structural equality")
+    return ev, viol + v2, inconc + i2, known + k2
